@@ -42,4 +42,4 @@ m["agent_verified"]=m.pop("verified","")
 json.dump(m,open(sys.argv[2],"w"),indent=1,ensure_ascii=False)
 PY
 echo "== $NAME: caught by:${caught:- NOTHING}"
-rm -rf "$W" "$HERE"/.build/*-alt*
+CK="$(echo "$W/formula" | cksum | cut -d' ' -f1)"; rm -rf "$W" "$HERE"/.build/*-alt"$CK"*
